@@ -493,8 +493,14 @@ impl BigDecimal {
                 let (mut q, r) = self.int_val.div_rem(&p);
 
                 // check for "leading zero" in remainder term; otherwise round
-                if p < 10 * &r {
-                    q += get_rounding_term(&r);
+                // (away from zero: the remainder carries the sign of the number)
+                let r_abs = r.abs();
+                if p < 10 * &r_abs {
+                    if r.is_negative() {
+                        q -= get_rounding_term(&r_abs);
+                    } else {
+                        q += get_rounding_term(&r_abs);
+                    }
                 }
 
                 BigDecimal {
